@@ -192,7 +192,10 @@ func cmdCheck(args []string) int {
 		o.tier = "quick"
 	}
 	if o.timeout == 0 {
-		o.timeout = 10
+		// quick: every claimed obligation discharges in a few seconds on an idle machine; the
+		// cap only bounds how long a failing obligation (a violation) is pursued and leaves
+		// room for a loaded machine
+		o.timeout = 20
 		if o.tier == "thorough" {
 			o.timeout = 60
 		}
